@@ -400,3 +400,28 @@ def lost_witnesses(body):
                 todo += nxt
             out.append((l, inits, bb, hit))
     return out
+
+
+def origin_locals_indexed(body, l, depth=30, seen=None):
+    """like origin_locals, but a read `a[k]` of an array local that is built by one aggregate follows only its k-th operand"""
+    seen = seen if seen is not None else set()
+    if l in seen or depth < 0:
+        return seen
+    seen.add(l)
+    for bb, kind, payload in local_defs(body, l):
+        if kind == 'assign':
+            for p in operand_places(payload):
+                m = re.match(r'^\[(\d+)\]$', p['p'][0]) if p['p'] else None
+                if m:
+                    aggs = [pl for b_, k_, pl in local_defs(body, p['l']) if k_ == 'assign' and pl.get('rv') == 'agg']
+                    if len(aggs) == 1 and len(aggs[0].get('ops', [])) > int(m.group(1)):
+                        o = aggs[0]['ops'][int(m.group(1))]
+                        if o['k'] != 'const':
+                            origin_locals_indexed(body, o['pl']['l'], depth - 1, seen)
+                        continue
+                origin_locals_indexed(body, p['l'], depth - 1, seen)
+        else:
+            for a in payload.get('args', []):
+                if a['k'] != 'const':
+                    origin_locals_indexed(body, a['pl']['l'], depth - 1, seen)
+    return seen
